@@ -715,4 +715,137 @@ def rfc7638Members (kty : String) : List String :=
   else if kty = "oct" then ["k", "kty"]
   else []
 
+/-! ## `JwkBufferEncoder` with `key_ops` / `kid` (jwk/encode.rs `finalize`, jwk/ops.rs)
+
+`finalize` appends `"key_ops":` + the elements + `]` and then `"kid":"…"` (through `add_str`: the raw bytes, nothing is
+escaped) to the members `encode_jwk` wrote, and closes the object when anything was written.  On the tree in /repo the opening
+`[` of the `key_ops` array is never written; `bracket` is that one byte (false = /repo today, true = repaired). -/
+
+/-- does `finalize` write the opening `[` of `key_ops`?  What /repo does NOW (constant until tools/extract.py generates it:
+    true iff `finalize` in askar-crypto/src/jwk/encode.rs contains `buffer_write(b"[")` or `b"[\""`). -/
+def keyOpsBracketCurrent : Bool := Askar.Generated.Flags.jwkKeyOpsOpenBracket
+
+/-- `OPS` with `KeyOps::as_str`: bit and name, in the order `KeyOpsIter` yields them -/
+def opTable : List (Nat × String) :=
+  [(1, "encrypt"), (2, "decrypt"), (4, "sign"), (8, "verify"), (16, "wrapKey"), (32, "unwrapKey"), (64, "deriveKey"),
+   (128, "deriveBits")]
+
+/-- `(&KeyOpsSet).into_iter()` as names -/
+def opsNames (ops : Nat) : List Bytes := (opTable.filter fun p => ops &&& p.1 ≠ 0).map fun p => sb p.2
+
+/-- `"s"` -/
+def quoted (s : Bytes) : Bytes := 34 :: (s ++ [34])
+
+/-- the elements after the first: `,"name"` each -/
+def opsTail : List Bytes → Bytes
+  | [] => []
+  | n :: ns => 44 :: (quoted n ++ opsTail ns)
+
+/-- the elements as `finalize` writes them: `"a"` then `,"b"` … -/
+def opsElems : List Bytes → Bytes
+  | [] => []
+  | n :: ns => quoted n ++ opsTail ns
+
+/-- the value text written for `key_ops`: (`[` in the repaired variant only,) the elements, `]` -/
+def opsText (bracket : Bool) (ops : Nat) : Bytes :=
+  (if bracket then [91] else []) ++ (opsElems (opsNames ops) ++ [93])
+
+/-- one attribute as written: `"name":` + value text -/
+def attrText (name : Bytes) (value : Bytes) : Bytes := quoted name ++ 58 :: value
+
+/-- the attributes in the order written: the members of `encode_jwk`, then `key_ops`, then `kid` -/
+def attrTexts (bracket : Bool) (ms : List Member) (ops : Option Nat) (kid : Option Bytes) : List Bytes :=
+  ms.map (fun m => attrText (sb m.1) (quoted m.2))
+    ++ (match ops with | some o => [attrText (sb "key_ops") (opsText bracket o)] | none => [])
+    ++ (match kid with | some k => [attrText (sb "kid") (quoted k)] | none => [])
+
+/-- attributes after the first: `,attr` each -/
+def attrsTail : List Bytes → Bytes
+  | [] => []
+  | t :: ts => 44 :: (t ++ attrsTail ts)
+
+/-- the whole buffer after `finalize`: nothing at all when no attribute was written (`empty` still true) -/
+def renderAttrs : List Bytes → Bytes
+  | [] => []
+  | t :: ts => 123 :: (t ++ (attrsTail ts ++ [125]))
+
+def renderJwk (bracket : Bool) (ms : List Member) (ops : Option Nat) (kid : Option Bytes) : Bytes :=
+  renderAttrs (attrTexts bracket ms ops kid)
+
+/-- `JwkBufferEncoder::new(buf, mode).alg(a).key_ops(ops).kid(kid)`, `key.encode_jwk(&mut enc)?`, `enc.finalize()?` -/
+def toJwkWith (bracket : Bool) (k : Key) (mode : Mode) (algParam : Option Alg) (ops : Option Nat) (kid : Option Bytes) :
+    Res Bytes :=
+  match encodeJwk k mode algParam with
+  | .ok ms => .ok (renderJwk bracket ms ops kid)
+  | .err e => .err e
+  | .panic s => .panic s
+
+/-! ## keypair bytes (`KeypairBytes` of Ed25519 / X25519 / K-256 / P-256 / P-384) -/
+
+/-- the types that implement `KeypairBytes` -/
+def Alg.hasKeypairBytes : Alg → Bool
+  | .ed25519 | .x25519 | .k256 | .p256 | .p384 => true
+  | _ => false
+
+/-- length of `to_public_bytes`: the compressed SEC1 form for the Weierstrass curves -/
+def Alg.pubBytesLen (a : Alg) : Nat := if a.isEc then a.secretLen + 1 else a.pubLen
+
+/-- `KeypairBytes::from_keypair_bytes`: length check, `from_secret_bytes(&kp[..n])` (EC: every error mapped to InvalidKeyData),
+    `check_public_bytes(&kp[n..])` = comparison with `to_public_bytes` of the derived key.  Both slices are in bounds after the
+    length check.  `Unsupported` stands for "the type has no such impl" (a compile-time fact in Rust). -/
+def fromKeypairBytes (cfg : Cfg) (P : Prims) (alg : Alg) (b : Bytes) : Res Key :=
+  if alg.hasKeypairBytes = false then .err .unsupported
+  else if b.length ≠ alg.secretLen + alg.pubBytesLen then .err .invalidKeyData
+  else match fromSecretBytes cfg P alg (b.take alg.secretLen) with
+    | .ok k =>
+      (match toPublicBytes k with
+       | .ok pb => if pb = b.drop alg.secretLen then .ok k else .err .invalidKeyData
+       | .err e => .err e
+       | .panic s => .panic s)
+    | .err e => if alg.isEc then .err .invalidKeyData else .err e
+    | .panic s => .panic s
+
+/-- `KeypairBytes::to_keypair_bytes`: secret ‖ public, MissingSecretKey for a public-only key -/
+def toKeypairBytes (k : Key) : Res Bytes :=
+  if k.alg.hasKeypairBytes = false then .err .unsupported
+  else match k.secret with
+    | none => .err .missingSecretKey
+    | some s =>
+      match toPublicBytes k with
+      | .ok pb => .ok (s ++ pb)
+      | .err e => .err e
+      | .panic s => .panic s
+
+/-! ## key conversion (`convert_key_any`, `Ed25519KeyPair::to_x25519_keypair`, `From<&BlsKeyPair<G1G2>>`) -/
+
+/-- third-party operations of the Ed25519 → X25519 conversion -/
+structure ConvPrims where
+  /-- `sha2::Sha512::digest` (64 bytes) -/
+  sha512 : Bytes → Bytes
+  /-- `CompressedEdwardsY(b).decompress()` followed by `.to_montgomery().to_bytes()`; `none` = `decompress` fails -/
+  edToMontgomery : Bytes → Option Bytes
+
+/-- `curve25519_dalek::scalar::clamp_integer` on 32 bytes: `b[0] &= 248; b[31] &= 127; b[31] |= 64` -/
+def clampBytes (h : Bytes) : Bytes :=
+  h.mapIdx fun i x => if i = 0 then x &&& 248 else if i = 31 then (x &&& 127) ||| 64 else x
+
+/-- `Ed25519KeyPair::to_x25519_keypair`: with a secret, the clamped first half of SHA-512(secret) and its X25519 public key;
+    without, `decompress().unwrap()` of the stored public bytes — a panic when they do not decompress -/
+def toX25519 (P : Prims) (C : ConvPrims) (k : Key) : Res Key :=
+  match k.secret with
+  | some s =>
+    let xs := clampBytes ((C.sha512 s).take 32)
+    .ok { alg := .x25519, secret := some xs, pub := (P.pubOf .x25519 xs).getD [] }
+  | none =>
+    match C.edToMontgomery k.pub with
+    | some u => .ok { alg := .x25519, secret := none, pub := u }
+    | none => .panic "CompressedEdwardsY::decompress().unwrap() (to_x25519_keypair)"
+
+/-- `convert_key_any` -/
+def convertKey (P : Prims) (C : ConvPrims) (k : Key) (to : Alg) : Res Key :=
+  if k.alg = .blsG1G2 ∧ to = .blsG1 then .ok { alg := .blsG1, secret := k.secret, pub := k.pub.take 48 }
+  else if k.alg = .blsG1G2 ∧ to = .blsG2 then .ok { alg := .blsG2, secret := k.secret, pub := k.pub.drop 48 }
+  else if k.alg = .ed25519 ∧ to = .x25519 then toX25519 P C k
+  else .err .unsupported                                     -- "Unsupported key conversion operation"
+
 end Askar.Jwk
